@@ -262,21 +262,25 @@ func wireShape(wr WireReq, tmpl string) string {
 	}
 	// path variables carry values whose decimal spelling may legitimately differ between
 	// languages (1e+06 vs 1000000): compare the template positions, not the values
-	ts, ps := strings.Split(tmpl, "/"), strings.Split(u.Path, "/")
+	ts, ps := strings.Split(tmpl, "/"), strings.Split(u.EscapedPath(), "/")
 	if len(ts) == len(ps) {
 		for i := range ts {
 			if strings.HasPrefix(ts[i], "{") && strings.HasSuffix(ts[i], "}") && ps[i] != "" {
 				ps[i] = "{}"
 			}
 		}
-		u.Path = strings.Join(ps, "/")
+		return wr.Verb + " " + strings.Join(ps, "/") + " ?" + queryNames(u)
 	}
+	return wr.Verb + " " + u.EscapedPath() + " ?" + queryNames(u)
+}
+
+func queryNames(u *url.URL) string {
 	var names []string
 	for n := range u.Query() {
 		names = append(names, n)
 	}
 	sort.Strings(names)
-	return wr.Verb + " " + u.Path + " ?" + strings.Join(names, ",")
+	return strings.Join(names, ",")
 }
 
 func templateMatches(tmpl, path string) bool {
@@ -451,7 +455,7 @@ func (propC03) Check(k *Kernel, cov *Coverage) *Violation {
 		n := 0
 		for _, d := range docs {
 			for _, o := range d.Ops {
-				if o.Verb == c.Wire[0].Verb && templateMatches(o.Path, u.Path) {
+				if o.Verb == c.Wire[0].Verb && templateMatches(o.Path, u.EscapedPath()) {
 					n++
 					if o.OperationID != rpc.Method && n == 1 {
 						n = 100
@@ -461,7 +465,7 @@ func (propC03) Check(k *Kernel, cov *Coverage) *Violation {
 		}
 		if n != 1 {
 			return &Violation{Class: "request-line-not-in-openapi", Signature: "C03|request-line-vs-openapi|" + clientKind(c) + "|" + cfg,
-				Detail: fmt.Sprintf("RPC %s: %s client emits %s %s which matches %d operations of the documents (want exactly the operation %s)", rpc.Key, clientKind(c), c.Wire[0].Verb, u.Path, n%100, rpc.Method)}
+				Detail: fmt.Sprintf("RPC %s: %s client emits %s %s which matches %d operations of the documents (want exactly the operation %s)", rpc.Key, clientKind(c), c.Wire[0].Verb, u.EscapedPath(), n%100, rpc.Method)}
 		}
 	}
 	return nil
